@@ -80,6 +80,21 @@ CLAIMS = {
   "text": "Theorems no_spin (all scripts incl. mutating commands, all PCs incl. 0xFFFF, outside user space, on HALT), iter_mono, work_bound (a loop still running after n iterations has executed + read at least n). Tied to the code by ~3k sessions per run on programs that jump to 0xFFFF / out of user space / park on HALT with resuming commands issued there, then end of input; the bound iterations ≤ executed + commands + 1 is checked on the implementation with the tick hook.",
   "note": "Trusted: Lean kernel; axioms propext, Classical.choice, Quot.sound; the hand-written debugger model is validated against the code by differential testing of whole sessions; minimal-mode stderr only; command text parsing is C14; sessions use .orig/.fill sources (real sources: C17).",
   "ref": "DESIGN.md §4 C16"},
+ "C01": {
+  "technique": "Lean 4 proof (every emitted word = bit-field ISA encoding of its resolved statement, for all statements/origins/label positions; AIR-level image theorem; one-statement token-level theorem) + three-way correspondence implementation vs model vs specification on abstract programs under random layouts",
+  "text": "Proved: emit_eq_encode_holds / emit_ok_iff_fits_holds (every statement form, every operand, the PC-relative arithmetic bridge), emitAll_eq_specWords, image_eq_spec / image_word (when assemble returns an image, word i is encode(stmt_i) at orig+i), image_depends_on_labels_only (definition/use order irrelevant), parse_numbered, backpatchAll_*, stmt_tokens_to_spec (one statement's tokens → the specification's words). PARTIAL: the text-level statements assemble_image / layout_irrelevant (render a whole abstract program under any layout ⇒ the specified image) are stated as `def … : Prop` and not proved — the lexer lemmas and the parse-loop induction over a whole program are missing; that half is carried by the correspondence: abstract programs (exhaustive operand sweeps at 7 origins, random programs with dense label graphs) are rendered under random layouts and literal spellings, and the real assembler's image is compared with the model's (from the text) and with the specification's (from the abstract program alone); two layouts of the same program must give the same image.",
+  "note": "Trusted: Lean kernel; axioms propext, Classical.choice, Quot.sound; the text→tokens half (lexer, directive expansion) is validated by differential testing and the C05 no-panic/termination theorems only; the layout generator defines which texts count as layouts of a program (I12).",
+  "ref": "DESIGN.md §4 C01"},
+ "C04": {
+  "technique": "Lean 4 proof (literal accepted iff its word fits the field; assemble succeeds iff every resolved statement fits; accepted words are never truncated; duplicate/undefined label and second .orig rejected) + three-way correspondence on boundary operands",
+  "text": "Proved: lit_range_iff (signed imm5/offset6/PC offsets, unsigned trap vector/.orig/.fill), expectLit_lit, accept_iff_fits, no_truncation, reject_is_diag, dup_label_rejected, undefined_label_rejected, second_orig_rejected. PARTIAL: accept_iff_wf at the text level is a stated Prop (same missing lexer/parse-loop link as C01). Correspondence: 19 forms × 14 boundary operands × 4 spellings × 2 origins, label distances at ±2^(n−1) and one beyond, label identity variants, .orig/trap sweeps, 12k random programs with wild operands — accept/reject and the image compared three ways.",
+  "note": "Trusted: Lean kernel; axioms propext, Classical.choice, Quot.sound; model validated by differential testing; I1 (a literal denotes a 16-bit word) fixes what 'fits' means.",
+  "ref": "DESIGN.md §4 C04"},
+ "C18": {
+  "technique": "Lean 4 proof (flag-off lexer rejects iff a stack-mnemonic token occurs; flag irrelevant for texts without one; opcode 0xD exits 1 with the flag off and executes per ISA with it on; runs that fetch no 0xD word are identical; Features::from_str = spec; -f position irrelevant) + three-part correspondence (assembler pairs, run pairs, real spawns)",
+  "text": "22 theorems in Props/C18.lean and C18Asm.lean, all proved: flag_irrelevant_text, flag_off_rejects_iff, flag_irrelevant_vm, flag_off_opD_exit1, flag_on_executes, flag_irrelevant_run (stated on the words fetched as memory is at fetch time, so self-modifying programs are covered), features_from_str_spec, flag_irrelevant_cli, flag_off_cli_rejects, flag_position_irrelevant, … Correspondence per run: 8k assembler outcome pairs (mnemonics as instruction/label/reference, any case, in comments/strings), 3k run pairs with raw 0xD words reached / not reached / stored at run time, ~280 real spawns of check/compile/run with 22 ways of writing the option, checking that the diagnostic names the feature.",
+  "note": "Trusted: Lean kernel; axioms propext, Classical.choice, Quot.sound; clap's option parsing is exercised, not modelled.",
+  "ref": "DESIGN.md §4 C18"},
 }
 
 def main():
